@@ -31,7 +31,17 @@ RUNITS['GroupHDF5_findEntityGroup'] = dict(file='backend/hdf5/GroupHDF5.cpp', lo
             calls={'findGroupByAttribute': 'findGroupByAttribute_g', 'getAttr': 'getAttr_g'})
 RUNITS['H5Group_findGroupByNameOrAttribute'] = dict(file='backend/hdf5/h5x/H5Group.cpp', locator=r'boost::optional<H5Group>\s+H5Group::findGroupByNameOrAttribute\s*\(', cls='H5Group', cls_file='backend/hdf5/h5x/H5Group.hpp',
             classes=['nstring', 'H5Group'], member_calls={'hasObject': 'H5Group_hasObject_m', 'openGroup': 'H5Group_openGroup', 'findGroupByAttribute': 'H5Group_findGroupByAttribute_m'}, ret_default='OPT_NONE_H5Group')
-UNITS = dict(c08.GATE_UNITS); UNITS.update(HUNITS); UNITS.update(RUNITS)
+def name_from_cstr(ctx, toks):
+    """str_name = name;  (std::string assigned from the char buffer)  ->  nstring_assign_cstr(&str_name, name);"""
+    out = []; i = 0
+    while i < len(toks):
+        if seq_at(toks, i, ['str_name', '=', 'name', ';']):
+            out.extend(tokenize('%snstring_assign_cstr(&str_name, name)' % toks[i].ws)); i += 3; fire(ctx, 'string-assign-cstr'); continue
+        out.append(toks[i]); i += 1
+    return out
+IUNITS = {'H5Group_objectName': dict(file='backend/hdf5/h5x/H5Group.cpp', locator=r'std::string\s+H5Group::objectName\s*\(', cls='H5Group', cls_file='backend/hdf5/h5x/H5Group.hpp', classes=['H5Group', 'nstring'],
+                                     inherited_members=['hid'], pre_rules=[name_from_cstr], ret_default='(nstring){0}')}
+UNITS = dict(c08.GATE_UNITS); UNITS.update(IUNITS); UNITS.update(HUNITS); UNITS.update(RUNITS)
 EXTRA = c08.EXTRA + 'bool gh_delete_answer;\n'
 JOBS = [dict(j, extra_c=EXTRA) for j in c08.GATE_JOBS] + [dict(name=fn, bodies=[fn], enforce=[fn], replace=[], extra_c=EXTRA, expect_kinds=['postcondition'], timeout=300) for fn in HUNITS]
 REXTRA = 'int gh_container_present; int gh_name2grp[RS_IDS], gh_eid2grp[RS_IDS], gh_geid[RS_GRPS], gh_gname[RS_GRPS]; int gh_attr2grp[RS_IDS], gh_gattr[RS_GRPS]; int gh_uuid_shaped[RS_IDS]; int gh_scan_attr;\n'
@@ -41,7 +51,10 @@ JOBS.append(dict(name='GroupHDF5_findEntityGroup', bodies=['GroupHDF5_findEntity
                  expect_kinds=['postcondition'], timeout=300))
 JOBS.append(dict(name='H5Group_findGroupByNameOrAttribute', bodies=['H5Group_findGroupByNameOrAttribute'], enforce=['H5Group_findGroupByNameOrAttribute'], replace=[], extra_c=REXTRA, includes=['c03_resolve.h'],
                  expect_kinds=['postcondition'], timeout=300))
-SPEC = dict(c08.SPEC, contracts=['nd.h', 'c08_gate.h', 'c03_handle.h', 'c03_resolve.h'],  include_order=['nd.h', 'c08_gate.h', 'c03_handle.h'], units=UNITS, jobs=JOBS)
+JOBS.append(dict(name='H5Group_objectName', bodies=['H5Group_objectName'], enforce=['H5Group_objectName'], replace=[], includes=['c03_index.h'],
+                 extra_c='long gh_len_crt, gh_len_alpha; int gh_calls, gh_first_type, gh_first_order, gh_fetch_type, gh_fetch_order, gh_fetches, gh_written; hsize_t gh_first_index, gh_fetch_index; size_t gh_fetch_size;\n',
+                 expect_kinds=['postcondition'], timeout=300, object_bits=8))
+SPEC = dict(c08.SPEC, contracts=['nd.h', 'c08_gate.h', 'c03_handle.h', 'c03_resolve.h', 'c03_index.h'],  include_order=['nd.h', 'c08_gate.h', 'c03_handle.h'], units=UNITS, jobs=JOBS)
 SPEC['assumptions'] = ['KERNEL ONLY: decided are (1) the step "create refuses a name the back end reports as existing and hands only legal, not yet existing names to the create primitive, exactly once" '
                        'for File::createBlock/createSection, Block::createSource/DataArray/Tag/MultiTag/Group, Source::createSource, Section::createSection/createProperty, and (2) that has / delete BY HANDLE '
                        '(File::hasBlock/deleteBlock/hasSection/deleteSection, Block::deleteSource, Source::hasSource/deleteSource, Section::hasSection/deleteSection/hasProperty/deleteProperty) resolve the handle by its id; '
